@@ -6,6 +6,9 @@ mod seed_derive;
 pub mod signing;
 pub mod verify;
 
+#[cfg(hbs_lms_verif)]
+pub use seed_derive::SeedDerive;
+
 use core::{convert::TryFrom, marker::PhantomData};
 use tinyvec::ArrayVec;
 
